@@ -87,18 +87,25 @@ WFVerdict(M, mandS, mandV) ==
    o = "r": the ECU answered r; "n": it stayed silent; "x": the request handler
    raised (C14's business; here only "both runs do the same").
 
+   Run B is compared with the reference run A step by step (a Mealy machine:
+   the same input history must give the same outputs).  The trace spec folds
+   StepClass over the two transcripts, carrying the seed bookkeeping sa, sb.
+
    The exception of the statement, stated precisely:
    E1  the bytes AFTER the first two of a positive response to a SecurityAccess
        requestSeed request (67 <odd type> <seed...>) are free (length included).
-   E2  the ECU may compare later key bytes with its own fresh seed.  A sendKey
-       request (27 <even type> <key...>) is *seed-determined* iff no seed has
-       been issued so far in either run, or the latest seed issued is known in
-       both runs (no requestSeed request since then went unanswered) and
-       "key = that seed" has the same truth value in both runs.
-       Only seed-determined sendKey steps must agree; a sendKey step that is
-       not seed-determined is unspecified, and if the runs then disagree the
-       rest of the history is unspecified too (the security state may differ
-       for a reason the statement allows). *)
+   E2  the ECU may compare later key bytes with its own fresh seed, and a tester
+       that answers the challenge sends different bytes in the two runs.  A
+       sendKey request (27 <even type> <key...>) is *seed-determined* iff its
+       bytes are the same in both runs ("the same request history") and either
+       no seed has been issued so far in either run, or the latest seed issued
+       is known in both runs (no requestSeed request since then went
+       unanswered) and "key = that seed" has the same truth value in both runs.
+       Only seed-determined sendKey steps must agree.  A sendKey step that is
+       not seed-determined is unspecified; if the two runs then disagree, the
+       rest of the history OF THAT ECU INSTANCE is unspecified too (its
+       security state may differ for a reason the statement allows); the
+       comparison resumes with the next freshly started ECU. *)
 
 SA == 39         \* 0x27 SecurityAccess
 SAPos == 103     \* 0x67
@@ -125,31 +132,23 @@ AfterStep(sd, st) ==
   ELSE sd
 
 SeedDetermined(sa, qa, sb, qb) ==
-  CASE sa.t = "none" /\ sb.t = "none" -> TRUE
-    [] sa.t = "seed" /\ sb.t = "seed" -> (KeyOf(qa) = sa.v) = (KeyOf(qb) = sb.v)
-    [] OTHER -> FALSE
+  /\ qa = qb
+  /\ CASE sa.t = "none" /\ sb.t = "none" -> TRUE
+       [] sa.t = "seed" /\ sb.t = "seed" -> (KeyOf(qa) = sa.v) = (KeyOf(qb) = sb.v)
+       [] OTHER -> FALSE
 
-(* Compare run B with the reference run A from step i on.
-   Result: [v |-> verdict label, at |-> first offending step (0 if ok), u |-> number of unspecified steps]. *)
-RECURSIVE Compare(_, _, _, _, _, _)
-Compare(A, B, i, sa, sb, u) ==
-  IF i > Len(A) THEN [v |-> "ok", at |-> 0, u |-> u]
-  ELSE
-    LET a == A[i]
-        b == B[i]
-        next(u2) == Compare(A, B, i + 1, AfterStep(sa, a), AfterStep(sb, b), u2)
-    IN
-    IF IsKeyRequest(a.q) /\ IsKeyRequest(b.q) /\ ~SeedDetermined(sa, a.q, sb, b.q)
-    THEN IF SameAnswer(a, b) THEN next(u + 1)
-         ELSE [v |-> "ok", at |-> 0, u |-> u + (Len(A) - i + 1)]          \* E2: rest unspecified
-    ELSE IF IsSeedReply(a) \/ IsSeedReply(b)
-    THEN IF IsSeedReply(a) /\ IsSeedReply(b) /\ SubSeq(a.r, 1, 2) = SubSeq(b.r, 1, 2)
-         THEN next(u)                                                      \* E1
-         ELSE [v |-> "D2/seed-reply-differs-outside-the-seed", at |-> i, u |-> u]
-    ELSE IF SameAnswer(a, b) THEN next(u)
-         ELSE [v |-> "D1/answer-differs", at |-> i, u |-> u]
-
-Determinism(A, B) ==
-  IF Len(A) # Len(B) THEN [v |-> "H0/history-length-differs", at |-> 0, u |-> 0]
-  ELSE Compare(A, B, 1, NoSeed, NoSeed, 0)
+(* Classification of step (a of run A, b of run B) given the bookkeeping before it:
+     "ok"      the answers agree as the statement demands
+     "unspec"  sendKey step that is not seed-determined, answers happen to agree
+     "taint"   sendKey step that is not seed-determined, answers differ: the rest of this
+               ECU instance's history is unspecified
+     "D1/..", "D2/.."  the clause broken *)
+StepClass(a, b, sa, sb) ==
+  IF IsKeyRequest(a.q) /\ IsKeyRequest(b.q) /\ ~SeedDetermined(sa, a.q, sb, b.q)
+  THEN IF SameAnswer(a, b) THEN "unspec" ELSE "taint"                            \* E2
+  ELSE IF IsSeedReply(a) \/ IsSeedReply(b)
+  THEN IF IsSeedReply(a) /\ IsSeedReply(b) /\ SubSeq(a.r, 1, 2) = SubSeq(b.r, 1, 2)
+       THEN "ok"                                                                 \* E1
+       ELSE "D2/seed-reply-differs-outside-the-seed"
+  ELSE IF SameAnswer(a, b) THEN "ok" ELSE "D1/answer-differs"
 =============================================================================
